@@ -257,9 +257,41 @@ def run(tier, seed):
     rep.evaluations += ntraces
     rep.sample(cmeta[0]); rep.sample(cmeta[len(cmeta) // 2]); rep.sample(cmeta[-1])
 
+    # conditions spread over several 'whenever' clauses of one sentence: the rule must fire exactly where ALL clauses hold
+    # (reading: the conjunction of the clauses; no compile model here, only the oracle)
+    pres = ['ENone', 'EInitially', 'EFinally', 'EPreviously', 'ESubsequently']
+    pairs = [((a, c), (b, c)) for c in 'pq' for a in pres for b in pres if a != b]
+    others = [((a, 'p'), (b, 'q')) for a in pres for b in pres] + [((a, 'q'), (b, 'p')) for a in pres for b in pres]
+    chosen = pairs + (others if tier == 'thorough' else rnd.sample(others, 12))
+    mjobs = []
+    for cl in chosen:
+        lv = [(False, False, None, (atom_ent(pre, c), []), None) for pre, c in cl]
+        f = [(lv[0],)] + [('and', l) for l in lv[1:]]
+        text = 'Whenever ' + ', whenever '.join('there is ' + r_atom(atom_ent(pre, c)) for pre, c in cl) + ', then we must have a h.'
+        mjobs.append((f, text))
+    mres = impl.compile_many([DECL + t for _, t in mjobs])
+    mbodies = [body_of(r[1]) if r[0] == 'ok' else None for r in mres]
+    midx = [i for i, b in enumerate(mbodies) if b is not None]
+    with ThreadPoolExecutor(max_workers=14) as ex:
+        mobs = list(ex.map(lambda i: telingo_obs(mbodies[i], horizon), midx))
+    mcases, mmeta = [], []
+    for i, res in zip(midx, mobs):
+        if isinstance(res, tuple):
+            continue
+        rep.evaluations += len(res)
+        obs = coq_list(['(%s, %s)' % (coq_list([coq_list([coq_str(a) for a in st]) for st in tr]), coq_list([coq_bool(b) for b in hv])) for tr, hv in res])
+        mcases.append('{| o_kind := KWheneverMust; o_f := %s; o_obs := %s |}' % (c_formula(mjobs[i][0]), obs))
+        mmeta.append(dict(text=DECL + mjobs[i][1], impl=mres[i][:3], kind='several whenever clauses'))
+        rep.case(('multi', mjobs[i][1]))
+    rep.cov['several_clause_sentences'] = len(mcases)
+    for (f, t), r in zip(mjobs, mres):
+        if r[0] != 'ok':
+            rep.violation('a condition spread over several whenever clauses is not compiled', dict(text=DECL + t, result=[str(x) for x in r[:3]]))
+            break
+
     tie_broken = []
     corr_fail = obs_fail = mobs_fail = undefined = []
-    if proof['ok']:
+    if proof['ok'] or proof['extra_ok']:
         corr_fail = common.run_cases(PID, 'corr', PRE, ccases, 'corr_ok', shard=300)
         obs_fail = common.run_cases(PID, 'obs', PRE, ocases, 'obs_ok', shard=60)
         mobs_fail = common.run_cases(PID, 'mobs', PRE, ocases, 'model_obs_ok', shard=60)
@@ -275,14 +307,23 @@ def run(tier, seed):
             rep.cov['telingo_sequence_deviations'] = len(dev)
             obs_fail = [j for j in obs_fail if j not in dev or j in bad_dev]
             mobs_fail = [j for j in mobs_fail if j not in dev]
-    else:
+        mfail = common.run_cases(PID, 'multi', PRE, mcases, 'obs_ok', shard=60)
+        nv = 0
+        for j in mfail:
+            if 'finally ' in mmeta[j]['text'].split('\n')[-1] and 'F-C05-bare-finally' in findings:
+                rep.known_finding('F-C05-bare-finally', findings['F-C05-bare-finally']['summary'])
+                continue
+            nv += 1
+            if nv <= 2:
+                rep.violation('the compiled rule does not fire exactly where all the whenever clauses of the sentence hold', mmeta[j])
+    if not proof['ok']:
         tie_broken.append('theorem file does not build: %s' % proof['failed_at'])
     rep.cov.update(sentences=len(jobs), compiled_ok=len(idx), telingo_runs=len(idx), traces_observed=ntraces, horizon=horizon,
                    reading_undefined=len(undefined), telingo_rejected=len(telingo_rejects))
 
     # classification against the known findings: the structured triggers are computed by the Coq model on its compiled formula
     def trig_set(checker, cases):
-        if not proof['ok'] or not cases:
+        if not (proof['ok'] or proof['extra_ok']) or not cases:
             return set()
         not_trig = set(common.run_cases(PID, 'trg_' + checker, PRE, cases, checker, shard=300))
         return set(range(len(cases))) - not_trig
